@@ -1,5 +1,7 @@
 import numpy as np
 
+MAX_EXTRAPOLATION_COEF = 1e6
+
 
 class AndersonAcceleration:
     """Abstraction of Anderson Acceleration.
@@ -41,5 +43,9 @@ class AndersonAcceleration:
 
         # extrapolate
         C = inv_UTU_ones / np.sum(inv_UTU_ones)
-        # floating point errors may cause w and Xw to disagree
+        # an ill-conditioned U.T @ U (e.g. close to convergence) yields huge coefficients
+        # of alternating signs: rounding errors are amplified by max|C| and make the
+        # extrapolated w and Xw disagree. Skip the extrapolation (also for nan / inf).
+        if not np.all(np.abs(C) < MAX_EXTRAPOLATION_COEF):
+            return w, Xw, False
         return self.arr_w_[:, 1:] @ C, self.arr_Xw_[:, 1:] @ C, True
